@@ -76,7 +76,7 @@ def push (pq : PQ) (k v t : Nat) (overwriteValue : Bool) : PQ × Bool :=
   match lookup k pq with
   | some e =>
     let pq1 := if overwriteValue then setVal k v pq else pq
-    if t > e.due then (pq1, false)
+    if Gen.Queue.pqPushKeepsIfLater && decide (t > e.due) then (pq1, false)
     else (ins ⟨k, v, t⟩ (del k pq1), false)
   | none => (ins ⟨k, v, t⟩ pq, true)
 
@@ -84,7 +84,7 @@ def push (pq : PQ) (k v t : Nat) (overwriteValue : Bool) : PQ × Bool :=
 def peek (pq : PQ) (now : Nat) : Option Entry :=
   match pq with
   | [] => none
-  | x :: _ => if x.due ≤ now then some x else none
+  | x :: _ => if Gen.Queue.pqPeekDueLE && decide (x.due ≤ now) then some x else none
 
 /-- the `nextDelay` result of `Peek`: what the loop's timer is reset to (0 = no timer). -/
 def peekDelay (pq : PQ) (now : Nat) : Nat :=
